@@ -159,7 +159,38 @@ fn make_simple_summary_txs(
         };
         (vec![summary_tx], Vec::new())
     } else {
-        (Vec::new(), vec![SHARE_BALANCE_ZERO_WARNING.to_string()])
+        (
+            zero_share_cost_base_txs(af, tx, sum_post_status),
+            vec![SHARE_BALANCE_ZERO_WARNING.to_string()],
+        )
+    }
+}
+
+/// An affiliate can hold a cost base with no shares (a superficial loss of another
+/// affiliate's sale is added to it ahead of its own purchase later in the 30-day
+/// period). That cost base cannot be summarized as a purchase, so it is carried as
+/// an adjustment.
+fn zero_share_cost_base_txs(
+    af: &Affiliate,
+    last_tx: &Tx,
+    sum_post_status: &super::PortfolioSecurityStatus,
+) -> Vec<Tx> {
+    match sum_post_status.total_acb.map(|acb| PosDecimal::try_from(*acb)) {
+        Some(Ok(acb)) => vec![Tx {
+            security: last_tx.security.clone(),
+            trade_date: last_tx.settlement_date,
+            settlement_date: last_tx.settlement_date,
+            action_specifics: super::TxActionSpecifics::Sfla(
+                super::SflaTxSpecifics {
+                    shares_affected: PosDecimal::one(),
+                    amount_per_share: acb,
+                },
+            ),
+            memo: "Summary (cost base held with no shares)".to_string(),
+            affiliate: af.clone(),
+            read_index: 0,
+        }],
+        _ => Vec::new(),
     }
 }
 
@@ -293,6 +324,14 @@ fn make_annual_gains_summary_txs(
         };
 
         summary_period_txs.push(summary_tx);
+    }
+
+    if sum_post_status.share_balance.is_zero() {
+        summary_period_txs.extend(zero_share_cost_base_txs(
+            af,
+            &deltas[latest_summarizable_delta_idx].tx,
+            sum_post_status,
+        ));
     }
 
     (summary_period_txs, warnings)
